@@ -241,6 +241,11 @@ func mashDrive(args []string) error {
 			huge := big && (sid == 8 || sid == 9) // one sequence of more than 2^20 bases, a few bases (fewer than k) beyond the multiple
 			nseq := 1 + r.Intn(4)
 			var seqs [][]byte
+			large := sid == 12 // every run: a sequence beyond 2^16 bases after a short one in the same call
+			if large {
+				k, nseq = 21, 0
+				seqs = append(seqs, randSeq(40+r.Intn(40)), randSeq(1<<16+500+r.Intn(500)))
+			}
 			if huge {
 				k = []int{21, 31}[sid%2]
 				nseq = 0
@@ -285,6 +290,12 @@ func mashDrive(args []string) error {
 			}
 			if sid%2 == 0 || k > 100 { // a sketch with room for every k-mer of the content: nothing is hidden behind the n-th smallest value
 				n = 600 + r.Intn(600)
+			}
+			if large {
+				n = 1<<17 + r.Intn(100)
+				sketch(n, k, seqs, true, "reference")
+				sketch(n, k, [][]byte{revComp(seqs[1]), seqs[0]}, true, "other order, long one reverse-complemented")
+				break
 			}
 			if huge {
 				n = hugeBase + 64 // every distinct canonical k-mer is in the sketch
@@ -513,7 +524,7 @@ func mashDrive(args []string) error {
 				total += len(q.HF)
 			}
 			// (also in every fifth small session: there the specification compares the indexed enumeration with the plain one)
-			if (total > 100000 || sid%5 == 2) && len(ev.Seqs2) == 0 && (ev.Op == "sketch" || ev.Op == "add") {
+			if (total > 20000 || sid%5 == 2) && len(ev.Seqs2) == 0 && (ev.Op == "sketch" || ev.Op == "add") {
 				ev.Invs, ev.Invp = make([]int, len(vals)), make([]int, len(vals))
 				for si, q := range ev.Seqs {
 					for i, x := range q.HF {
